@@ -55,7 +55,8 @@ def main():
         dst = os.path.join(VERIF, 'seeded', sid)
         os.makedirs(dst, exist_ok=True)
         for f in ('patch.diff', 'demo.py'):
-            shutil.copy(os.path.join(src, f), os.path.join(dst, f))
+            if os.path.abspath(os.path.join(src, f)) != os.path.abspath(os.path.join(dst, f)):
+                shutil.copy(os.path.join(src, f), os.path.join(dst, f))
         meta = {}
         try:
             meta = json.load(open(os.path.join(src, 'meta.json')))
